@@ -50,7 +50,8 @@ struct Env {
     bool first_done = false;
     uint64_t first[5] = {0, 0, 0, 0, 0};
     int first_fds = 0, (*count_fds)() = nullptr;
-    void snapshot_first() { if (first_done) return; first_done = true; first_fds = count_fds ? count_fds() : 0; first[0] = init_pagesize_queries; first[1] = init_entropy_calls; first[2] = init_entropy_bytes; first[3] = init_stirs; first[4] = init_src_bytes; }
+    uint64_t first_keys = 0, *keys_counter = nullptr;
+    void snapshot_first() { if (first_done) return; first_done = true; first_fds = count_fds ? count_fds() : 0; first_keys = keys_counter ? *keys_counter : 0; first[0] = init_pagesize_queries; first[1] = init_entropy_calls; first[2] = init_entropy_bytes; first[3] = init_stirs; first[4] = init_src_bytes; }
     void reset(uint64_t seed) {
         first_done = false; memset(first, 0, sizeof first); first_fds = 0;
         entropy_seed = seed;
@@ -184,7 +185,12 @@ int h_fstat(int fd, struct stat *st) {
 }
 int open_sim_fds() { int n = 0; for (auto &f : g_fds) n += f.open; return n; }
 int h_fcntl(int fd, int, long) { fd_access(fd, false); return 0; }
-int h_poll(struct pollfd *pf, nfds_t n, int) { for (nfds_t i = 0; i < n; i++) { fd_access(pf[i].fd, false); pf[i].revents = POLLIN; } return (int) n; }
+int h_poll(struct pollfd *pf, nfds_t n, int) {
+    simrt::yield_point(simrt::Y_SYSCALL, 17);
+    if (env_fault(5)) { g_eintr_fired++; errno = EINTR; return -1; } // a signal arrives while waiting on /dev/random
+    for (nfds_t i = 0; i < n; i++) { fd_access(pf[i].fd, false); pf[i].revents = POLLIN; }
+    return (int) n;
+}
 
 // library allocations become tracked blocks
 void *h_malloc(size_t n) {
@@ -285,7 +291,9 @@ void h_assert_fail(const char *e, const char *f, unsigned line, const char *fn) 
 // reads and rewrites it from several threads races on it exactly as it would on a global variable.  Every such call
 // made from inside the library is reported to the race detector as an access to a pseudo location.
 uint64_t g_process_state[3][70];
+uint64_t g_tsd_keys_created = 0; // thread-specific-data keys the library has created (a pool of 1024 per process)
 void h_process_state(int what, int arg, int is_write) {
+    if (what == 3) { g_tsd_keys_created++; return; }
     if (what < 0 || what > 2) return;
     simrt::yield_point(simrt::Y_SYSCALL, 30 + (uintptr_t) what);
     simrt::on_access((uintptr_t) &g_process_state[what][(unsigned) arg % 70], 8, is_write != 0, (uintptr_t) __builtin_return_address(0));
@@ -819,6 +827,7 @@ struct PlanT {
     bool inline_main = false;  // thread 0 is the main thread; the others come into existence when first scheduled
     bool shared_arena = false;  // all threads' caller buffers packed into one tracked block
     unsigned env_fault_pct = 0; // getrandom EINTR/EAGAIN, mlock ENOMEM (per-thread deterministic)
+    unsigned prior_init_calls = 0; // the main thread has called sodium_init() this many times before the threads race through it (0: the threads' calls are the first)
     unsigned entropy_dies_after = 0; // 0 never; k: each thread's k-th and later getrandom()/getentropy() calls outside sodium_init() fail (bit 8: EPERM instead of ENOSYS)
     bool no_getrandom = false;  // kernel without getrandom()/getentropy(): the random sources read a simulated /dev/urandom
     bool sysconf_fails = false; // environment fault: sysconf(_SC_PAGESIZE) fails inside sodium_init (the library falls back to its default)
@@ -833,6 +842,7 @@ struct Outcome {
     uint64_t pagesize_queries = 0, init_entropy_calls = 0, init_entropy_bytes = 0, init_stirs = 0, init_src_bytes = 0;
     uint64_t first[5] = {0, 0, 0, 0, 0}; // the same five at the return of the first sodium_init() call
     int first_fds = 0, end_fds = 0;      // simulated descriptors open at that moment / when every thread has finished
+    uint64_t first_keys = 0, end_keys = 0; // thread-specific-data keys created by the library by then / by the end
     int winner = -1;
     Json to_json() const {
         Json j = Json::object();
@@ -841,7 +851,7 @@ struct Outcome {
         for (auto &t : results) { Json a = Json::array(); for (uint64_t v : t) a.push(hex64(v)); rs.push(a); }
         j["results"] = rs;
         j["pq"] = pagesize_queries; j["ic"] = init_entropy_calls; j["ib"] = init_entropy_bytes; j["is"] = init_stirs; j["isb"] = init_src_bytes; j["winner"] = winner;
-        Json f = Json::array(); for (int i = 0; i < 5; i++) f.push(first[i]); j["first"] = f; j["first_fds"] = first_fds; j["end_fds"] = end_fds;
+        Json f = Json::array(); for (int i = 0; i < 5; i++) f.push(first[i]); j["first"] = f; j["first_fds"] = first_fds; j["end_fds"] = end_fds; j["first_keys"] = first_keys; j["end_keys"] = end_keys;
         return j;
     }
     static Outcome from_json(const Json &j) {
@@ -850,7 +860,7 @@ struct Outcome {
         for (auto &t : j.at("results").a) { std::vector<uint64_t> r; for (auto &v : t.a) r.push_back(strtoull(v.str().c_str(), nullptr, 16)); o.results.push_back(r); }
         o.pagesize_queries = j.at("pq").u64(); o.init_entropy_calls = j.at("ic").u64(); o.init_entropy_bytes = j.at("ib").u64(); o.init_stirs = j.at("is").u64(); o.init_src_bytes = j.at("isb").u64();
         for (size_t i = 0; i < 5 && i < j.at("first").a.size(); i++) o.first[i] = j.at("first").a[i].u64();
-        o.first_fds = (int) j.at("first_fds").i64(); o.end_fds = (int) j.at("end_fds").i64();
+        o.first_fds = (int) j.at("first_fds").i64(); o.end_fds = (int) j.at("end_fds").i64(); o.first_keys = j.at("first_keys").u64(); o.end_keys = j.at("end_keys").u64();
         o.winner = (int) j.at("winner").i64(-1);
         return o;
     }
@@ -907,7 +917,7 @@ Outcome run_plan(const PlanT &p, int strategy, const std::vector<int> &seq_order
     g_env_fault_pct = p.env_fault_pct; memset(g_env_calls, 0, sizeof g_env_calls); g_eintr_fired = g_mlock_refused = 0;
     g_entropy_dies_after = p.entropy_dies_after & 0xff; g_entropy_dies_errno = (p.entropy_dies_after & 0x100) ? EPERM : ENOSYS;
     memset(g_entropy_calls_outside_init, 0, sizeof g_entropy_calls_outside_init); g_entropy_dead_fired = 0;
-    g_no_getrandom = p.no_getrandom; for (auto &f : g_fds) f = SimFd(); g_dev_reads = g_dev_opens = 0; ENV.count_fds = open_sim_fds;
+    g_no_getrandom = p.no_getrandom; for (auto &f : g_fds) f = SimFd(); g_dev_reads = g_dev_opens = 0; ENV.count_fds = open_sim_fds; g_tsd_keys_created = 0; ENV.keys_counter = &g_tsd_keys_created;
     g_script_seed = mix64(p.content_seed, 0x5c21); memset(g_script_off, 0, sizeof g_script_off);
     if (p.rng == R_INTERNAL) randombytes_set_implementation(&randombytes_internal_implementation);
     else if (p.rng == R_SCRIPTED) randombytes_set_implementation(&g_scripted_mt);
@@ -916,6 +926,13 @@ Outcome run_plan(const PlanT &p, int strategy, const std::vector<int> &seq_order
         { LibScope l; if (sodium_init() != 0) { fprintf(stderr, "pre-init failed\n"); _exit(3); } }
         ENV.in_init[MAXTHREADS] = false;
         ENV.snapshot_first();
+    } else if (p.prior_init_calls) {
+        // a long-lived process: the initialiser has been called many times before (every component calls it defensively)
+        ENV.in_init[MAXTHREADS] = true;
+        { LibScope l; for (unsigned q = 0; q < p.prior_init_calls; q++) if (sodium_init() != (q ? 1 : 0)) { fprintf(stderr, "prior sodium_init() call %u returned an unexpected value\n", q); _exit(3); } }
+        ENV.in_init[MAXTHREADS] = false;
+        // the counters must describe the threads' calls only; the first-call snapshot is taken by the first of them
+        ENV.init_pagesize_queries = ENV.init_entropy_calls = ENV.init_entropy_bytes = ENV.init_stirs = ENV.init_src_bytes = 0;
     }
     RT.est_steps = 80 * (uint64_t) p.nthreads + 250 * (uint64_t) p.ops.size() + 50; // where PCT places its priority-change points
     RT.reset(p.nthreads, p.sched_seed, strategy, p.pct_depth);
@@ -943,7 +960,7 @@ Outcome run_plan(const PlanT &p, int strategy, const std::vector<int> &seq_order
         g_shared->ready = true;
         simrt::register_block((uintptr_t) g_shared, sizeof(SharedRO), 'S', true);
     } else g_shared = nullptr;
-    RT.main_inline = p.inline_main && !p.preinit && strategy != simrt::S_SEQUENTIAL; // the reference runs the winner first, whoever that was
+    RT.main_inline = p.inline_main && !p.preinit && !p.prior_init_calls && strategy != simrt::S_SEQUENTIAL; // the reference runs the winner first, whoever that was
     RT.seq_order = seq_order;
     RT.detect_races = detect;
     RT.trace_in = strategy == simrt::S_TRACE ? p.sched : std::vector<std::pair<uint64_t, int>>();
@@ -951,7 +968,7 @@ Outcome run_plan(const PlanT &p, int strategy, const std::vector<int> &seq_order
     out.pagesize_queries = ENV.init_pagesize_queries; out.init_entropy_calls = ENV.init_entropy_calls; out.init_entropy_bytes = ENV.init_entropy_bytes;
     out.init_stirs = ENV.init_stirs; out.init_src_bytes = ENV.init_src_bytes;
     memcpy(out.first, ENV.first, sizeof out.first);
-    out.first_fds = ENV.first_fds; out.end_fds = open_sim_fds();
+    out.first_fds = ENV.first_fds; out.end_fds = open_sim_fds(); out.first_keys = ENV.first_keys; out.end_keys = g_tsd_keys_created;
     for (int i = 0; i < p.nthreads; i++) if (out.init_ret[(size_t) i] == 0 && out.winner < 0) out.winner = i;
     return out;
 }
@@ -1000,6 +1017,8 @@ struct C19 {
         p.rng = rc < 6 ? R_DEFAULT : rc < 8 ? R_INTERNAL : R_SCRIPTED;
         p.preinit = k.chance(1, 5);
         p.inline_main = !p.preinit && k.chance(1, 2);
+        // (not with the main thread as thread 0: its thread-local generator state would already be keyed by those calls, which the reference's thread 0, a fresh thread, cannot mirror)
+        p.prior_init_calls = (!p.preinit && !p.inline_main && k.chance(1, 4)) ? (unsigned) k.pick<unsigned>({1, 2, 255, 256, 257, 65535, 65536, 65537, 131072}) : 0;
         p.sysconf_fails = k.chance(1, 8);
         p.no_getrandom = k.chance(1, 4);
         p.entropy_dies_after = (!p.no_getrandom && p.rng != R_SCRIPTED && k.chance(1, 8)) ? (unsigned) k.range(1, 6) | (k.chance(1, 2) ? 0x100u : 0u) : 0;
@@ -1031,7 +1050,7 @@ struct C19 {
         j["knobs"] = p.pk; j["content_seed"] = p.content_seed; j["sched_seed"] = p.sched_seed; j["threads"] = p.nthreads;
         j["strategy"] = simrt::strategy_name[p.strategy]; j["pct_depth"] = p.pct_depth; j["rng"] = rng_name[p.rng]; j["preinit"] = p.preinit; j["inline_main"] = p.inline_main; j["sysconf_fails"] = p.sysconf_fails; j["env_fault_pct"] = p.env_fault_pct; j["shared_arena"] = p.shared_arena;
         j["kernel"] = p.no_getrandom ? "no_getrandom_dev_urandom" : "getrandom";
-        j["entropy_dies_after"] = p.entropy_dies_after;
+        j["entropy_dies_after"] = p.entropy_dies_after; j["prior_init_calls"] = p.prior_init_calls;
         if (p.strategy == simrt::S_TRACE) {
             Json sc = Json::array();
             for (auto &d : p.sched) { Json e = Json::array(); e.push(d.first); e.push(d.second); sc.push(e); }
@@ -1052,7 +1071,7 @@ struct C19 {
         for (int i = 0; i < 3; i++) if (j.at("rng").str() == rng_name[i]) p.rng = i;
         p.preinit = j.at("preinit").boolean(); p.inline_main = j.at("inline_main").boolean(); p.sysconf_fails = j.at("sysconf_fails").boolean(); p.env_fault_pct = (unsigned) j.at("env_fault_pct").u64(); p.shared_arena = j.at("shared_arena").boolean();
         p.no_getrandom = j.at("kernel").str() == "no_getrandom_dev_urandom";
-        p.entropy_dies_after = (unsigned) j.at("entropy_dies_after").u64();
+        p.entropy_dies_after = (unsigned) j.at("entropy_dies_after").u64(); p.prior_init_calls = (unsigned) j.at("prior_init_calls").u64();
         for (auto &d : j.at("schedule_deviations").a) if (d.a.size() == 2) p.sched.push_back({d.a[0].u64(), (int) d.a[1].i64()});
         for (auto &q : j.at("ops").a) {
             Op o; o.thread = (int) q.at("t").i64();
@@ -1114,6 +1133,7 @@ struct C19 {
         res.count(std::string("knob.rng=") + rng_name[p.rng]);
         res.count("knob.threads=" + std::to_string(p.nthreads));
         res.count(std::string("knob.preinit=") + (p.preinit ? "yes" : "no"));
+        if (p.prior_init_calls) res.count("fault.sodium_init_called_before_by_main", p.prior_init_calls);
         res.count(std::string("knob.inline_main=") + (p.inline_main ? "yes" : "no"));
         res.count(std::string("knob.shared_arena=") + (p.shared_arena ? "yes" : "no"));
         if (g_sysconf_failed) res.count("fault.sysconf_pagesize_failed", g_sysconf_failed);
@@ -1152,10 +1172,12 @@ struct C19 {
         if (!p.preinit) {
             int zeros = 0, ones = 0, other = 0;
             for (int v : got.init_ret) { if (v == 0) zeros++; else if (v == 1) ones++; else other++; }
-            if (zeros != 1 || other != 0) {
+            int want_zeros = p.prior_init_calls ? 0 : 1;
+            if (zeros != want_zeros || other != 0) {
                 std::string s;
                 for (int v : got.init_ret) s += " " + std::to_string(v);
-                res.fail("init-return-values", zeros == 0 ? "no-initialiser" : zeros > 1 ? "several-initialisers" : "error-return", "sodium_init() return values over the threads:" + s + " (expected exactly one 0 and the rest 1)", (int) RT.steps);
+                res.fail("init-return-values", zeros < want_zeros ? "no-initialiser" : zeros > want_zeros ? (p.prior_init_calls ? "initialised-again" : "several-initialisers") : "error-return",
+                         "sodium_init() return values over the threads:" + s + (p.prior_init_calls ? " (expected 1 everywhere: the main thread had already called it " + std::to_string(p.prior_init_calls) + " times)" : " (expected exactly one 0 and the rest 1)"), (int) RT.steps);
                 return res;
             }
             if (ones) res.count("probe.init_loser_returned_1", (uint64_t) ones);
@@ -1180,6 +1202,12 @@ struct C19 {
                 res.fail("init-not-exactly-once", "more-than-one-call", std::string("all sodium_init() calls of the run together made ") + std::to_string(g5[q]) + " " + nm5[q] + "; a single sodium_init() call (sequential reference, first call) makes " + std::to_string(ref.first[q]), (int) RT.steps);
                 return res;
             }
+        }
+        if (got.end_keys != ref.first_keys) {
+            // conservation of another small process-wide pool: thread-specific-data keys (1024 per process in glibc)
+            res.fail("thread-key-leak", "pthread_key_create", "the library created " + std::to_string(got.end_keys) + " thread-specific-data key(s) over the run with " + std::to_string(p.nthreads) +
+                     " threads; one sodium_init() creates " + std::to_string(ref.first_keys) + " (sequential reference, first call): keys are taken per thread or per call from a pool of 1024 and never returned", (int) RT.steps);
+            return res;
         }
         if (p.no_getrandom && got.end_fds != ref.first_fds) {
             // conservation: whatever the threads did, the library holds as many descriptors on the entropy device at the
@@ -1282,6 +1310,7 @@ struct C19 {
         if (p.sysconf_fails) { Plan c = p; c.sysconf_fails = false; out.push_back(c); }
         if (p.no_getrandom) { Plan c = p; c.no_getrandom = false; out.push_back(c); }
         if (p.entropy_dies_after) { Plan c = p; c.entropy_dies_after = 0; out.push_back(c); }
+        if (p.prior_init_calls > 1) { Plan c = p; c.prior_init_calls = 1; out.push_back(c); }
         if (p.env_fault_pct) { Plan c = p; c.env_fault_pct = 0; out.push_back(c); }
         if (p.shared_arena) { Plan c = p; c.shared_arena = false; out.push_back(c); }
         if (p.strategy != simrt::S_TRACE && p.sched_seed > 3) for (uint64_t s = 1; s <= 3; s++) { Plan c = p; c.sched_seed = s; out.push_back(c); }
